@@ -1,5 +1,6 @@
 import CelmaVerif.Base.Proto
 import CelmaVerif.Model.Keys
+import CelmaVerif.Model.KeysCmdline
 /- line-protocol driver for the keys component (C05) -/
 open CelmaVerif CelmaVerif.Keys CelmaVerif.Proto
 
@@ -41,6 +42,13 @@ def step (s : St) (line : String) : St × String :=
   | ["keys", "findc", abbr, hx] =>
     match hexDecode hx, abbr == "0" || abbr == "1" with
     | some [b], true => (s, findLine (findArg (abbr == "1") s.table (Key.ofChar (Char.ofNat b))))
+    | _, _ => (s, "bad-op")
+  | ["keys", "word", abbr, hx] =>
+    match hexDecode hx, abbr == "0" || abbr == "1" with
+    | some bs, true =>
+      match classifyWord (toChars bs) with
+      | none => (s, "bad-op")        -- not one of the two plain key words: outside this model
+      | some _ => (s, findLine (cmdLookup (abbr == "1") s.table (toChars bs)))
     | _, _ => (s, "bad-op")
   | ["keys", "parse", hx] =>
     match hexDecode hx with
